@@ -25,8 +25,9 @@ FUNCTIONS = c05.FUNCTIONS + ['ParseMCNPCell.parse_lat_kw / parse_fill_kw (ranges
 def make(task):
     sd, dims, variant, skew = task[:4]
     cellform, second = (task[4], task[5]) if len(task) > 4 else ('planes', False)
+    latfilltr = task[6] if len(task) > 6 else None
     rnd = random.Random(sd)
-    return gen.lattice_deck(rnd, dims=dims, variant=variant, skew=skew, cellform=cellform, second=second)
+    return gen.lattice_deck(rnd, dims=dims, variant=variant, skew=skew, cellform=cellform, second=second, latfilltr=latfilltr)
 
 
 def worker(task):
@@ -52,6 +53,9 @@ def tasks_for(tier):
                     ('same' if i % 8 == 7 else True) if form == 'planes' else False))
     for i in range(4 if tier == 'quick' else 40):
         out.append((base + 2000 + i, 1 + i % 2, 'array', False, 'planes', 'same'))
+    # FILL=n (tr) on the LAT cell itself, alone / next to a translating TRCL / with a rotation
+    for i in range(9 if tier == 'quick' else 90):
+        out.append((base + 3000 + i, 1 + i % 2, 'option', False, 'planes', False, ['tr', 'trcl', 'rot'][i % 3]))
     return out
 
 
@@ -66,7 +70,7 @@ def run(tier):
                        'fill array, own universe, universe 0, range limits), point symbolic.')
     rep.bounds = {'decks': len(tasks), 'dimensions': '1-3', 'elements_per_lattice': '<= 9', 'ranges': 'from {0:1, -1:0, 0:0, -1:1, 1:2, -2:-1}',
                   'symbolic': 'at most 3 of: pitches, plane offsets, container radius, fill displacement, filler radii; the point',
-                  'outside': ['more than 9 elements', 'nested lattices', 'lattice cell with its own fill transformation', 'unit cells bounded by non-planes']}
+                  'outside': ['more than 9 elements', 'nested lattices', 'a fill transformation on a LAT cell that has a FILL array or a rotating TRCL', 'unit cells bounded by non-planes']}
     rep.assumptions = ['MCNP lattice indexing: [1,0,0] is beyond the first-listed surface; FILL array with the first index fastest; the filling universe '
                        'is positioned relative to each element']
     rep.cov['rule'] = 'program = one generated deck; case = (deck, path, label); distinct = distinct (deck, path condition)'
